@@ -35,6 +35,23 @@ pub fn verify_batch_fri_proof<
 ) -> anyhow::Result<()> {
     validate_batch_fri_proof_shape::<F, C, D>(proof, instances, params)?;
 
+    // The caller-supplied caps and openings must match the instances one to one: the query rounds
+    // below `zip` over them, and a short list would silently skip the corresponding checks.
+    ensure!(
+        openings.len() == instances.len(),
+        "Number of opening sets does not match the number of FRI instances."
+    );
+    for (inst, opn) in instances.iter().zip(openings) {
+        ensure!(
+            initial_merkle_cap.len() == inst.oracles.len(),
+            "Number of initial Merkle caps does not match the number of oracles."
+        );
+        ensure!(
+            opn.batches.len() == inst.batches.len(),
+            "Number of opening batches does not match the FRI instance."
+        );
+    }
+
     // Check PoW.
     fri_verify_proof_of_work(challenges.fri_pow_response, &params.config)?;
 
